@@ -2,6 +2,7 @@ package main
 
 import (
 	"fmt"
+	"os"
 	"go/constant"
 	"go/token"
 	"go/types"
@@ -53,6 +54,7 @@ type HarnessResult struct {
 	Timeout      bool
 	UnknownFeas  int
 	Merges       int
+	IfConv       int
 	Samples      []*VecSample
 	Wall         float64
 }
@@ -64,6 +66,7 @@ type VecSample struct {
 }
 
 type Engine struct {
+	ifConv    bool
 	noMerging bool
 	prog    *ssa.Program
 	base    *Heap
@@ -82,6 +85,7 @@ type Engine struct {
 }
 
 type Worker struct {
+	spec     bool // speculative if-conversion in progress: no forking, no solver
 	subDepth int
 	e     *Engine
 	sol   *Solver
@@ -221,6 +225,7 @@ func (w *Worker) cut(st *State, why string) {
 }
 
 var debugCuts = false
+var noIfConvFlag = os.Getenv("SYMEX_NOIFCONV") != ""
 
 func (st *State) stack() []string {
 	var out []string
@@ -297,6 +302,9 @@ func (w *Worker) decide(st *State, c *Term) bool {
 	}
 	if v, ok := st.known[c]; ok {
 		return v != 0
+	}
+	if w.spec {
+		panic(specAbort{})
 	}
 	tOK, fOK, tm, fm := w.bothSides(st, c)
 	switch {
@@ -375,6 +383,9 @@ func (st *State) concreteInt(t *Term, why string) int64 {
 }
 
 func (w *Worker) concretize(st *State, t *Term, why string) int64 {
+	if w.spec {
+		panic(specAbort{})
+	}
 	capK := w.e.cfg.ConcretizeCap
 	var vals []uint64
 	var models []Model
@@ -779,6 +790,9 @@ func (w *Worker) branch(st *State, f *Frame, c *Term) {
 		} else {
 			jump(f, f.block.Succs[1])
 		}
+		return
+	}
+	if ifi, isIf := f.block.Instrs[f.pc].(*ssa.If); isIf && w.e.ifConv && w.trySpeculate(st, f, ifi, c) {
 		return
 	}
 	tOK, fOK, tm, fm := w.bothSides(st, c)
